@@ -7,6 +7,7 @@ from vlib import boolsem, gen_circ, sims
 
 ID = "C12"
 SHARDS = 32
+CASE_TIMEOUT = 15  # seconds per case; a timed-out case is counted as skipped (symbolic blow-up on long feedback runs), never as a verdict
 RULE = (
     "Hypothesis generates circuits on 1..5 qubits (and, one case in six, purely classical circuits on 10..16 qubits with swap triples on the highest qubits, compared on all 2^n basis states with the reversible simulator): classical sections of 1..8 gates (X/CX/CCX/MCX) between non-classical gates "
     "(H/Z/S/T/Y/P/CZ/CP/SWAP) and barriers, with boosted shapes (CX-swap triples and other pure permutations, sections cancelling to "
